@@ -5,18 +5,33 @@
 (* and what happens to a block that gathered a commit.                     *)
 (*                                                                         *)
 (* Code:  consensus/state.go   defaultDoPrevote, enterPrecommit (the       *)
-(*                             "lock" branch), finalizeCommit              *)
-(*        consensus/validation.go  validateBlock (reached only through     *)
-(*                             consensus/execution.go ApplyBlock)          *)
+(*                             "lock" branch), enterCommit, finalizeCommit, *)
+(*                             addVote (valid block), defaultDecideProposal *)
+(*        consensus/validation.go  validateBlock                           *)
+(*        types/validator_set.go   VerifyCommit (the +2/3 of a LastCommit) *)
+(*        types/vote_set.go        the +2/3 of the votes of a round        *)
 (*        app/app.go           CheckBlock, CommitBlock                     *)
 (*        node/node.go         NewNode, "rebuild status" (restart)         *)
 (*                                                                         *)
-(* One height, four validators of equal power: a Byzantine proposer of     *)
-(* round 0 and three correct validators n1..n3.  The voting rounds are the *)
-(* algorithm of spec/Consensus/ConsensusNode.tla reduced to what matters   *)
-(* here (DoPrevote, EnterPrecommit, EnterCommit); this module adds what    *)
-(* that one abstracts away: blocks have CONTENT, namely the set of clauses *)
-(* of full validity they violate.                                          *)
+(* One height.  The validator set is chosen by the first action (Genesis): *)
+(* one Byzantine validator of power bp (< 1/3 of the total) and correct    *)
+(* validators n1..nk of powers pw[1..k]; prop[r+1] is the proposer of      *)
+(* round r.  "More than two thirds" is the exact comparison                *)
+(* 3 * power > 2 * total, for the votes of a round and for the precommits  *)
+(* carried in a block's LastCommit alike.                                  *)
+(*                                                                         *)
+(* Blocks have CONTENT:                                                    *)
+(*   c     the set of clauses of full validity they violate by             *)
+(*         construction (see Clauses below),                               *)
+(*   lcp   the voting power of the previous validators whose precommits    *)
+(*         their LastCommit carries (the proposer may drop precommits of   *)
+(*         the commit it saw): the clause "lastCommit" is DERIVED from it, *)
+(*   and an identity: the Byzantine proposer builds a first block "B" and  *)
+(*   possibly a second one "B2", in the same round or in a later round in  *)
+(*   which it is the proposer again; B2 is either unrelated to B ("fresh") *)
+(*   or B's "twin": the SAME HEADER (so the same Block.Hash()) with        *)
+(*   another body (so another part-set header and another BlockID).        *)
+(*   "G<r>" is the block a correct proposer builds in round r.             *)
 (*                                                                         *)
 (*   app         what LinkApplication.CheckBlock checks (height, time,     *)
 (*               DataHash, ParentHash, special-tx signatures, the          *)
@@ -24,7 +39,8 @@
 (*   ev          ConsensusState.checkBlockEvidence                         *)
 (*   basic ..fve one per clause of validateBlock, in the order of the code *)
 (*     basic       Block.ValidateBasic: NumTxs, LastCommitHash, shape of   *)
-(*                 LastCommit, DataHash, EvidenceHash                      *)
+(*                 LastCommit, DataHash, EvidenceHash (the body belongs to *)
+(*                 the header)                                             *)
 (*     chain       Header.ChainID = status.ChainID                         *)
 (*     height      Header.Height  = status.LastBlockHeight + 1             *)
 (*     lastId      Header.LastBlockID = status.LastBlockID                 *)
@@ -35,26 +51,32 @@
 (*     evFull      VerifyEvidence / VerifyFaultValEvidence of every item   *)
 (*     fve         FaultValidatorsEvidence present exactly once (h > 1)    *)
 (*                                                                         *)
-(* The block "B" is the one the Byzantine proposer built (its class, the   *)
-(* set of violated clauses, is `blk`); "G" is any block built by a correct *)
-(* proposer (fully valid).  The Byzantine validator supports B with its    *)
-(* prevote and precommit in every round (the strongest thing it can do     *)
-(* with one key).                                                          *)
-(*                                                                         *)
-(* The guard evaluated before prevoting is a CONSTANT:                     *)
-(*   AsCoded     checkBlockEvidence /\ CheckBlock       (the tree as it is) *)
-(*   AsRequired  ValidateBlock /\ checkBlockEvidence /\ CheckBlock         *)
+(* Three things are CONSTANTS so that the tree as it is and the tree as    *)
+(* the property requires it are instances of one module:                   *)
+(*   Guard  what is evaluated before a block is prevoted / locked          *)
+(*     AsCoded     checkBlockEvidence /\ CheckBlock  (before ef885bb)      *)
+(*     AsRequired  ValidateBlock /\ checkBlockEvidence /\ CheckBlock       *)
+(*   Cmp    how "the block I hold is the block that was voted" is decided  *)
+(*     hash        Block.HashesTo(blockID.Hash): the header only           *)
+(*     id          the whole BlockID (header hash and part-set header)     *)
 (* finalizeCommit is split as in the code:  CommitBlock (persist) .        *)
 (* ApplyBlock (validateBlock; failure => cmn.Kill()) ; Restart re-runs     *)
 (* ApplyBlock on the persisted block (node.NewNode).                       *)
 (***************************************************************************)
 EXTENDS Integers, Sequences, FiniteSets, TLC, Json
 
-CONSTANTS Guard,        \* "AsCoded" | "AsRequired"
-          Classes,      \* block classes the Byzantine proposer may build (sets of violated clauses)
-          MaxRound,     \* rounds 0..MaxRound (round 0: Byzantine proposer, later rounds: correct proposers)
-          MaxRestarts,  \* bound on restarts of a killed node
-          Sched         \* "fixed": the driver's schedule n1 < n2 < n3 inside a phase | "free": any order
+CONSTANTS Guard,         \* "AsCoded" | "AsRequired"
+          Cmp,           \* "hash" | "id"
+          Setups,        \* validator sets: [id, bp, pw, prop]
+          Blocks(_),     \* setup -> the first blocks the Byzantine proposer may build there: [c, lcp]
+          Seconds(_, _), \* (setup, first block) -> second blocks: [rel, c, lcp, r] (r: the round it is built in)
+          MaxRound,      \* rounds 0..MaxRound
+          MaxRestarts,   \* bound on restarts of a killed node
+          Sched,         \* "fixed": the driver's schedule inside a phase | "free": any order
+          ByzVotes,      \* "support": the Byzantine validator votes for B in every round | "free": it chooses
+          Loss,          \* proposals of correct proposers: "none" lost | "all" (reach everybody or nobody) | "any"
+          Serve          \* whom the Byzantine proposer serves: "any" subset | "prefix" (of more than three
+                         \* correct validators: n1..nj for some j)
 
 Clauses == {"app", "ev", "basic", "chain", "height", "lastId", "totalTxs",
             "consHash", "valHash", "lastCommit", "evFull", "fve"}
@@ -63,38 +85,48 @@ ValidateOrder == <<"basic", "chain", "height", "lastId", "totalTxs",
                    "consHash", "valHash", "lastCommit", "evFull", "fve">>
 ValidateClauses == {ValidateOrder[i] : i \in 1..Len(ValidateOrder)}
 
-Order  == <<"n1", "n2", "n3">>
-N      == {Order[i] : i \in 1..3}
-Idx(n) == CHOOSE i \in 1..3 : Order[i] = n
-HonestProposer == "n1"            \* proposer of the rounds above 0 (the rotation is C17's business)
+Names  == <<"n1", "n2", "n3", "n4", "n5", "n6", "n7">>
+GNames == <<"G1", "G2", "G3", "G4", "G5", "G6">>
 Rounds == 0..MaxRound
+Byz    == "byz"
 
 None  == "none"
 Nil   == "nil"
-NoBlk == {"-"}                    \* no Byzantine proposal yet (same shape as a class)
+ByzVals == {"B", "B2"}
+GVals   == {GNames[r] : r \in 1..MaxRound}
+BlockVals == ByzVals \cup GVals
+Values == {None, Nil} \cup BlockVals
 
-VARIABLES blk,    \* class of B
+NoSetup == [id |-> "-", bp |-> 0, pw |-> <<>>, prop |-> <<>>]
+NoBlk   == [c |-> {"-"}, lcp |-> -1, rel |-> "-", r |-> -1]   \* not built (same shape as a block)
+
+VARIABLES vs,     \* the validator set (a member of Setups; NoSetup before Genesis)
+          blk,    \* B
+          blk2,   \* B2
+          byz,    \* the Byzantine validator's prevote / precommit per round (ByzVotes = "free")
+          hp,     \* what the correct proposer of round r proposed
           node,   \* per correct validator: RoundState, application and status as far as C02 needs them
           last    \* label of the last action (output only; hidden by the VIEW)
-vars == <<blk, node, last>>
+vars == <<vs, blk, blk2, byz, hp, node, last>>
 
-Values == {None, Nil, "B", "G"}
+(* ---- the validator set --------------------------------------------------- *)
+K      == Len(vs.pw)
+N      == {Names[i] : i \in 1..K}
+Idx(n) == CHOOSE i \in 1..K : Names[i] = n
+Pw(n)  == vs.pw[Idx(n)]
+RECURSIVE SumSeq(_)
+SumSeq(s) == IF s = <<>> THEN 0 ELSE Head(s) + SumSeq(Tail(s))
+Total  == vs.bp + SumSeq(vs.pw)
+\* "more than two thirds of the voting power" - vote sets and commits alike
+TwoThirds(p) == 3 * p > 2 * Total
+Prop(r) == vs.prop[r + 1]          \* Byz or a correct validator
+
 Steps  == {"propose", "prevote", "precommit", "commit", "done", "failed"}
-
-TypeOK ==
-  /\ blk = NoBlk \/ blk \in Classes
-  /\ \A n \in N :
-       /\ node[n].round \in Rounds
-       /\ node[n].step \in Steps
-       /\ node[n].pb \in {None, "B", "G"} /\ node[n].lb \in {None, "B", "G"}
-       /\ node[n].pv \in [Rounds -> Values] /\ node[n].pc \in [Rounds -> Values]
-       /\ node[n].stored \in {None, "B", "G"}
-       /\ node[n].applied \in BOOLEAN /\ node[n].killed \in BOOLEAN
-       /\ node[n].restarts \in 0..MaxRestarts
 
 InitNode == [round |-> 0, step |-> "propose",
              pb |-> None,                    \* complete ProposalBlock
              lb |-> None,                    \* LockedBlock
+             vb |-> None,                    \* ValidBlock
              pv |-> [r \in Rounds |-> None], \* own prevote / precommit per round
              pc |-> [r \in Rounds |-> None],
              stored |-> None,                \* block persisted by CommitBlock (block store, state, UTXO store)
@@ -102,12 +134,41 @@ InitNode == [round |-> 0, step |-> "propose",
              killed |-> FALSE,               \* the node called cmn.Kill()
              restarts |-> 0]
 
-Init == /\ blk = NoBlk
-        /\ node = [n \in N |-> InitNode]
-        /\ last = [op |-> "init"]
+NoVotes == [pv |-> [r \in Rounds |-> None], pc |-> [r \in Rounds |-> None]]
 
-(* ---- block validity ---------------------------------------------------- *)
-Bad(v) == IF v = "B" THEN blk ELSE {}          \* clauses violated by value v
+TypeOK ==
+  /\ vs = NoSetup \/ vs \in Setups
+  /\ blk = NoBlk \/ (blk.c \subseteq Clauses /\ blk.lcp \in 0..Total)
+  /\ blk2 = NoBlk \/ (blk2.c \subseteq Clauses /\ blk2.lcp \in 0..Total /\ blk2.rel \in {"twin", "fresh"} /\ blk2.r \in Rounds)
+  /\ \A k \in {"pv", "pc"} : byz[k] \in [Rounds -> {None, Nil} \cup ByzVals]
+  /\ hp \in [Rounds -> {None} \cup BlockVals]
+  /\ DOMAIN node = N
+  /\ \A n \in N :
+       /\ node[n].round \in Rounds
+       /\ node[n].step \in Steps
+       /\ node[n].pb \in {None} \cup BlockVals /\ node[n].lb \in {None} \cup BlockVals
+       /\ node[n].vb \in {None} \cup BlockVals
+       /\ node[n].pv \in [Rounds -> Values] /\ node[n].pc \in [Rounds -> Values]
+       /\ node[n].stored \in {None} \cup BlockVals
+       /\ node[n].applied \in BOOLEAN /\ node[n].killed \in BOOLEAN
+       /\ node[n].restarts \in 0..MaxRestarts
+
+Lbl(op, n, r, v) == [op |-> op, n |-> n, r |-> r, v |-> v, cls |-> {"-"}, verr |-> "-", lcp |-> -1, rel |-> "-", setup |-> "-"]
+
+Init == /\ vs = NoSetup
+        /\ blk = NoBlk /\ blk2 = NoBlk
+        /\ byz = NoVotes
+        /\ hp = [r \in Rounds |-> None]
+        /\ node = <<>>
+        /\ last = Lbl("init", "-", 0, None)
+
+(* ---- block content -------------------------------------------------------- *)
+Block(v) == IF v = "B" THEN blk ELSE blk2
+Built(v) == v \in ByzVals /\ Block(v) # NoBlk
+
+\* clauses violated by a block of content b: the declared ones, and the previous commit's power
+BadOf(b) == b.c \cup (IF TwoThirds(b.lcp) THEN {} ELSE {"lastCommit"})
+Bad(v)   == IF v \in ByzVals THEN BadOf(Block(v)) ELSE {}       \* correct proposers build valid blocks
 
 CheckBlockEvidence(v) == "ev" \notin Bad(v)     \* state.go checkBlockEvidence
 CheckBlock(v)         == "app" \notin Bad(v)    \* app.go CheckBlock
@@ -125,17 +186,40 @@ VoteGuard(v) ==
   CASE Guard = "AsCoded"    -> CheckBlockEvidence(v) /\ CheckBlock(v)
     [] Guard = "AsRequired" -> ValidateBlock(v) /\ CheckBlockEvidence(v) /\ CheckBlock(v)
 
-(* ---- vote counting: 4 validators of power 1, +2/3 = 3 votes ------------ *)
-Count(kind, v, r) ==
-  Cardinality({n \in N : node[n][kind][r] = v}) + (IF v = "B" /\ blk # NoBlk THEN 1 ELSE 0)
-Maj(kind, r) ==
-  IF \E v \in {Nil, "B", "G"} : Count(kind, v, r) >= 3
-  THEN CHOOSE v \in {Nil, "B", "G"} : Count(kind, v, r) >= 3
-  ELSE None
-AllVoted(kind, r) == \A n \in N : node[n][kind][r] # None
+\* Block.Hash() is the hash of the header: a twin shares it with B
+HashOf(v) == IF v = "B2" /\ blk2.rel = "twin" THEN "B" ELSE v
+\* "the block v I hold is the block w that gathered the votes"
+Matches(v, w) ==
+  /\ v # None /\ w \notin {None, Nil}
+  /\ CASE Cmp = "id"   -> v = w
+       [] Cmp = "hash" -> HashOf(v) = HashOf(w)
 
-\* the driver's schedule inside a phase
-Turn(n, Done(_)) == Sched = "free" \/ \A m \in N : Idx(m) < Idx(n) => Done(m)
+(* ---- vote counting --------------------------------------------------------- *)
+Active(n) == node[n].step \notin {"done", "failed"} /\ ~node[n].killed
+
+ByzVoteOf(kind, r) ==
+  IF ByzVotes = "support" THEN (IF blk # NoBlk THEN "B" ELSE None)
+  ELSE IF Prop(r) # Byz THEN Nil           \* rounds of correct proposers: it stays out
+  ELSE byz[kind][r]
+ByzDecided(kind, r) == ByzVotes = "support" \/ ByzVoteOf(kind, r) # None
+
+RECURSIVE PowerOf(_)
+PowerOf(S) == IF S = {} THEN 0 ELSE LET n == CHOOSE m \in S : TRUE IN Pw(n) + PowerOf(S \ {n})
+Count(kind, v, r) ==
+  PowerOf({n \in N : node[n][kind][r] = v}) + (IF ByzVoteOf(kind, r) = v THEN vs.bp ELSE 0)
+\* VoteSet.TwoThirdsMajority: votes are counted per BlockID (a twin is another BlockID)
+Maj(kind, r) ==
+  LET W == {v \in {Nil} \cup BlockVals : TwoThirds(Count(kind, v, r))}
+  IN IF W = {} THEN None ELSE CHOOSE v \in W : TRUE
+AllVoted(kind, r) == \A n \in N : node[n][kind][r] # None \/ node[n].step = "failed"
+
+\* the driver's schedule inside a phase: the proposer of the round first, then n1 < n2 < ...
+Ord(n, r) == IF n = Prop(r) THEN 0 ELSE Idx(n)
+Turn(n, r, Done(_)) == Sched = "free" \/ \A m \in N : Ord(m, r) < Ord(n, r) => Done(m)
+\* everybody has reached round r (or has left the height)
+AllAt(r) == \A m \in N : node[m].round = r \/ ~Active(m)
+InPropose(n, r) == Active(n) /\ node[n].round = r /\ node[n].step = "propose"
+LeftPropose(m, r) == ~InPropose(m, r)
 
 (* ---- defaultDoPrevote -------------------------------------------------- *)
 PrevoteOf(s) ==
@@ -153,111 +237,184 @@ ApplyBlock(s) ==            \* execution.go ApplyBlock: validateBlock, then the 
 
 CommitBlock(s, v) == [s EXCEPT !.stored = v]    \* app.CommitBlock: block store, state, UTXO store
 
-FinalizeCommit(s, v) ==
-  IF ~(CheckBlockEvidence(v) /\ CheckBlock(v))
+\* s.pb is the block held, id the BlockID that gathered +2/3 precommits
+FinalizeCommit(s, id) ==
+  IF s.pb # id
+  THEN [s EXCEPT !.step = "failed"]             \* PanicSanity("Expected ProposalBlockParts header to be commit header")
+  ELSE IF ~(CheckBlockEvidence(s.pb) /\ CheckBlock(s.pb))
   THEN [s EXCEPT !.step = "failed"]             \* PanicConsensus("+2/3 committed an invalid block")
-  ELSE ApplyBlock(CommitBlock(s, v))
+  ELSE ApplyBlock(CommitBlock(s, s.pb))
 
 (* ---- actions ----------------------------------------------------------- *)
-\* The Byzantine proposer of round 0 builds B of class c (and signs a proposal for it).
-ByzPropose(c) ==
-  /\ blk = NoBlk
-  /\ blk' = c
-  /\ UNCHANGED node
-  /\ last' = [op |-> "byzPropose", cls |-> c, verr |-> ValidateErr(c), n |-> "-", r |-> 0]
+\* the chain is set up with validator set s
+Genesis(s) ==
+  /\ vs = NoSetup
+  /\ vs' = s
+  /\ node' = [n \in {Names[i] : i \in 1..Len(s.pw)} |-> InitNode]
+  /\ UNCHANGED <<blk, blk2, byz, hp>>
+  /\ last' = [Lbl("genesis", "-", 0, None) EXCEPT !.setup = s.id]
 
-\* n receives the proposal and every part of B while in Propose: enterPrevote
-RecvByz(n) ==
-  /\ blk # NoBlk
-  /\ node[n].round = 0 /\ node[n].step = "propose"
-  /\ Turn(n, LAMBDA m : node[m].step # "propose")
-  /\ node' = [node EXCEPT ![n] = DoPrevote([@ EXCEPT !.pb = "B"])]
-  /\ UNCHANGED blk
-  /\ last' = [op |-> "recvByz", cls |-> blk, verr |-> "-", n |-> n, r |-> 0]
+\* The Byzantine proposer of round 0 builds B (and signs a proposal for it).
+ByzPropose(b) ==
+  /\ vs # NoSetup /\ blk = NoBlk
+  /\ blk' = [c |-> b.c, lcp |-> b.lcp, rel |-> "first", r |-> 0]
+  /\ UNCHANGED <<vs, blk2, byz, hp, node>>
+  /\ last' = [Lbl("byzPropose", "-", 0, "B") EXCEPT !.cls = b.c, !.lcp = b.lcp,
+                                                   !.verr = ValidateErr(BadOf(b)), !.rel = "first"]
 
-\* n's propose timeout fires before B arrives (the proposer may serve any subset): prevote nil
+\* In a round r in which it is the proposer (again), before it serves anybody, the Byzantine
+\* validator builds a second block: unrelated to B, or B's header with another body.
+ByzBuild2(b) ==
+  /\ blk # NoBlk /\ blk2 = NoBlk
+  /\ b.r \in Rounds /\ Prop(b.r) = Byz
+  /\ \E n \in N : Active(n)
+  /\ \A n \in N : Active(n) => InPropose(n, b.r)
+  /\ blk2' = [c |-> b.c, lcp |-> b.lcp, rel |-> b.rel, r |-> b.r]
+  /\ UNCHANGED <<vs, blk, byz, hp, node>>
+  /\ last' = [Lbl("byzBuild2", "-", b.r, "B2") EXCEPT !.cls = b.c, !.lcp = b.lcp,
+                                                     !.verr = ValidateErr(BadOf(b)), !.rel = b.rel]
+
+\* n receives the Byzantine proposer's proposal for block v and every part of it while in
+\* Propose: enterPrevote.  (In one round the proposer may show B to some and B2 to others.)
+RecvByz(n, v) ==
+  /\ Built(v)
+  /\ LET r == node[n].round
+     IN /\ Prop(r) = Byz /\ InPropose(n, r) /\ AllAt(r)
+        /\ Turn(n, r, LAMBDA m : LeftPropose(m, r))
+        /\ (Serve = "prefix" /\ K > 3) => \A m \in N : (Idx(m) < Idx(n) /\ Active(m)) => node[m].pb # None
+        /\ node' = [node EXCEPT ![n] = DoPrevote([@ EXCEPT !.pb = v])]
+        /\ last' = [Lbl("recvByz", n, r, v) EXCEPT !.cls = Block(v).c]
+  /\ UNCHANGED <<vs, blk, blk2, byz, hp>>
+
+\* n's propose timeout fires before anything arrives (the proposer may serve any subset): prevote nil / the locked block
 TimeoutPropose(n) ==
   /\ blk # NoBlk
-  /\ node[n].round = 0 /\ node[n].step = "propose"
-  /\ Turn(n, LAMBDA m : node[m].step # "propose")
-  /\ node' = [node EXCEPT ![n] = DoPrevote(@)]
-  /\ UNCHANGED blk
-  /\ last' = [op |-> "timeoutPropose", cls |-> blk, verr |-> "-", n |-> n, r |-> 0]
+  /\ LET r == node[n].round
+     IN /\ Prop(r) = Byz /\ InPropose(n, r) /\ AllAt(r)
+        /\ Turn(n, r, LAMBDA m : LeftPropose(m, r))
+        /\ node' = [node EXCEPT ![n] = DoPrevote(@)]
+        /\ last' = [Lbl("timeoutPropose", n, r, None) EXCEPT !.cls = blk.c]
+  /\ UNCHANGED <<vs, blk, blk2, byz, hp>>
 
-\* rounds above 0: the correct proposer's block (its locked block, else a new one) reaches n
-HonestValue == IF node[HonestProposer].lb # None THEN node[HonestProposer].lb ELSE "G"
+\* rounds of a correct proposer p: defaultDecideProposal - its locked block, else its valid
+\* block, else a new one; it handles its own proposal: enterPrevote
+OwnProposal(p, r) ==
+  /\ Prop(r) = p /\ p \in N /\ InPropose(p, r) /\ AllAt(r)
+  /\ hp[r] = None
+  /\ LET s == node[p]
+         v == IF s.lb # None THEN s.lb ELSE IF s.vb # None THEN s.vb ELSE GNames[r]
+     IN /\ hp' = [hp EXCEPT ![r] = v]
+        /\ node' = [node EXCEPT ![p] = DoPrevote([s EXCEPT !.pb = v])]
+        /\ last' = Lbl("ownProposal", p, r, v)
+  /\ UNCHANGED <<vs, blk, blk2, byz>>
+
+\* the non-proposers of round r that have been dealt with in the propose phase
+Dealt(r) == {m \in N : m # Prop(r) /\ node[m].round = r /\ node[m].step # "propose"}
+
+\* ... the correct proposer's proposal and block reach n
 RecvHonest(n, r) ==
-  /\ r > 0 /\ node[n].round = r /\ node[n].step = "propose"
-  /\ \A m \in N : node[m].round = r \/ node[m].step \in {"done", "failed"} \/ node[m].killed
-  /\ Turn(n, LAMBDA m : ~(node[m].round = r /\ node[m].step = "propose"))
-  /\ node' = [node EXCEPT ![n] = DoPrevote([@ EXCEPT !.pb = HonestValue])]
-  /\ UNCHANGED blk
-  /\ last' = [op |-> "recvHonest", cls |-> blk, verr |-> "-", n |-> n, r |-> r]
+  /\ Prop(r) \in N /\ n # Prop(r) /\ InPropose(n, r) /\ AllAt(r)
+  /\ hp[r] # None
+  /\ Turn(n, r, LAMBDA m : LeftPropose(m, r))
+  /\ Loss = "all" => \A m \in Dealt(r) : node[m].pb # None
+  /\ node' = [node EXCEPT ![n] = DoPrevote([@ EXCEPT !.pb = hp[r]])]
+  /\ UNCHANGED <<vs, blk, blk2, byz, hp>>
+  /\ last' = Lbl("recvHonest", n, r, hp[r])
 
-\* every prevote of round r (the Byzantine one included) reaches n: enterPrecommit
+\* ... or they are lost and n's propose timeout fires
+TimeoutHonest(n, r) ==
+  /\ Prop(r) \in N /\ n # Prop(r) /\ InPropose(n, r) /\ AllAt(r)
+  /\ \/ hp[r] # None /\ Loss # "none"
+     \/ ~Active(Prop(r))
+  /\ Turn(n, r, LAMBDA m : LeftPropose(m, r))
+  /\ Loss = "all" => \A m \in Dealt(r) : node[m].pb = None
+  /\ node' = [node EXCEPT ![n] = DoPrevote(@)]
+  /\ UNCHANGED <<vs, blk, blk2, byz, hp>>
+  /\ last' = Lbl("timeoutHonest", n, r, None)
+
+\* the Byzantine validator's vote of a round in which it is the proposer, sent to everybody
+\* once the correct validators have voted: nil or one of its blocks
+ByzVote(kind, r, v) ==
+  /\ ByzVotes = "free" /\ Prop(r) = Byz /\ byz[kind][r] = None
+  /\ v = Nil \/ Built(v)
+  /\ \E n \in N : Active(n) /\ node[n].round = r
+  /\ AllAt(r) /\ AllVoted(kind, r)
+  /\ kind = "pc" => byz["pv"][r] # None
+  /\ byz' = [byz EXCEPT ![kind][r] = v]
+  /\ UNCHANGED <<vs, blk, blk2, hp, node>>
+  /\ last' = Lbl(IF kind = "pv" THEN "byzPrevote" ELSE "byzPrecommit", "-", r, v)
+
+\* every prevote of round r (the Byzantine one included) reaches n: addVote, enterPrecommit
 RecvPrevotes(n, r) ==
-  /\ node[n].round = r /\ node[n].step = "prevote"
-  /\ AllVoted("pv", r)
-  /\ Turn(n, LAMBDA m : node[m].pc[r] # None)
+  /\ Active(n) /\ node[n].round = r /\ node[n].step = "prevote"
+  /\ AllVoted("pv", r) /\ ByzDecided("pv", r)
+  /\ Turn(n, r, LAMBDA m : node[m].pc[r] # None \/ ~Active(m))
   /\ LET s == node[n]
          polka == Maj("pv", r)
+         \* addVote: a polka for the proposal block makes it the valid block (ValidRound starts at 0: not in round 0)
+         s0 == IF r > 0 /\ Matches(s.pb, polka) THEN [s EXCEPT !.vb = s.pb] ELSE s
          PC(x, v) == [x EXCEPT !.pc[r] = v, !.step = "precommit"]
-         s2 == IF polka = None THEN PC(s, Nil)                         \* no polka (after PrevoteWait)
-               ELSE IF polka = Nil THEN PC([s EXCEPT !.lb = None], Nil) \* +2/3 nil: unlock
-               ELSE IF s.lb = polka THEN PC(s, polka)                  \* relock
-               ELSE IF s.pb = polka
-                    THEN IF VoteGuard(polka)
-                         THEN PC([s EXCEPT !.lb = polka], polka)       \* lock and precommit
-                         ELSE [s EXCEPT !.step = "failed"]             \* PanicConsensus("+2/3 prevoted for an invalid block")
-               ELSE PC([s EXCEPT !.lb = None, !.pb = None], Nil)       \* polka for a block n lacks: fetch it
+         s2 == IF polka = None THEN PC(s0, Nil)                          \* no polka (after PrevoteWait)
+               ELSE IF polka = Nil THEN PC([s0 EXCEPT !.lb = None], Nil) \* +2/3 nil: unlock
+               ELSE IF Matches(s0.lb, polka) THEN PC(s0, polka)          \* relock
+               ELSE IF Matches(s0.pb, polka)
+                    THEN IF VoteGuard(s0.pb)
+                         THEN PC([s0 EXCEPT !.lb = s0.pb], polka)        \* lock and precommit
+                         ELSE [s0 EXCEPT !.step = "failed"]              \* PanicConsensus("+2/3 prevoted for an invalid block")
+               ELSE PC([s0 EXCEPT !.lb = None, !.pb = None], Nil)        \* polka for a block n lacks: fetch it
      IN node' = [node EXCEPT ![n] = s2]
-  /\ UNCHANGED blk
-  /\ last' = [op |-> "recvPrevotes", cls |-> blk, verr |-> "-", n |-> n, r |-> r]
+  /\ UNCHANGED <<vs, blk, blk2, byz, hp>>
+  /\ last' = Lbl("recvPrevotes", n, r, Maj("pv", r))
 
 \* every precommit of round r reaches n: enterCommit (+ finalizeCommit when n holds the block),
 \* or the next round
 RecvPrecommits(n, r) ==
-  /\ node[n].round = r /\ node[n].step = "precommit"
-  /\ \A m \in N : node[m].pc[r] # None \/ node[m].step = "failed"
-  /\ Turn(n, LAMBDA m : ~(node[m].round = r /\ node[m].step = "precommit"))
+  /\ Active(n) /\ node[n].round = r /\ node[n].step = "precommit"
+  /\ AllVoted("pc", r) /\ ByzDecided("pc", r)
+  /\ Turn(n, r, LAMBDA m : ~(Active(m) /\ node[m].round = r /\ node[m].step = "precommit"))
   /\ LET s == node[n]
          maj == Maj("pc", r)
-         s2 == IF maj \in {"B", "G"}
-               THEN LET s1 == IF s.lb = maj THEN [s EXCEPT !.pb = s.lb] ELSE s     \* enterCommit
-                    IN IF s1.pb = maj THEN FinalizeCommit([s1 EXCEPT !.step = "commit"], maj)
-                       ELSE [s1 EXCEPT !.step = "commit", !.pb = None]             \* wait for the block
+         s2 == IF maj \in BlockVals
+               THEN LET s1 == IF Matches(s.lb, maj) THEN [s EXCEPT !.pb = s.lb] ELSE s     \* enterCommit
+                    IN IF Matches(s1.pb, maj) THEN FinalizeCommit([s1 EXCEPT !.step = "commit"], maj)
+                       ELSE [s1 EXCEPT !.step = "commit", !.pb = None]                     \* wait for the block
                ELSE IF r < MaxRound
-                    THEN [s EXCEPT !.round = r + 1, !.step = "propose", !.pb = None]  \* enterNewRound
+                    THEN [s EXCEPT !.round = r + 1, !.step = "propose", !.pb = None]       \* enterNewRound
                     ELSE s
      IN /\ s2 # s
         /\ node' = [node EXCEPT ![n] = s2]
-  /\ UNCHANGED blk
-  /\ last' = [op |-> "recvPrecommits", cls |-> blk, verr |-> "-", n |-> n, r |-> r]
+  /\ UNCHANGED <<vs, blk, blk2, byz, hp>>
+  /\ last' = Lbl("recvPrecommits", n, r, Maj("pc", r))
 
 \* n is in Commit without the block: the parts arrive, tryFinalizeCommit
 FetchBlock(n) ==
-  /\ node[n].step = "commit" /\ node[n].pb = None /\ node[n].stored = None
+  /\ Active(n) /\ node[n].step = "commit" /\ node[n].pb = None /\ node[n].stored = None
   /\ LET maj == Maj("pc", node[n].round)
-     IN /\ maj \in {"B", "G"}
+     IN /\ maj \in BlockVals
         /\ node' = [node EXCEPT ![n] = FinalizeCommit([@ EXCEPT !.pb = maj], maj)]
-  /\ UNCHANGED blk
-  /\ last' = [op |-> "fetchBlock", cls |-> blk, verr |-> "-", n |-> n, r |-> node[n].round]
+        /\ last' = Lbl("fetchBlock", n, node[n].round, maj)
+  /\ UNCHANGED <<vs, blk, blk2, byz, hp>>
 
 \* a killed node is started again: NewNode finds the application one block ahead of the
 \* consensus status and re-runs ApplyBlock on the stored block
 Restart(n) ==
   /\ node[n].killed /\ node[n].restarts < MaxRestarts
   /\ node' = [node EXCEPT ![n] = ApplyBlock([@ EXCEPT !.restarts = @ + 1])]
-  /\ UNCHANGED blk
-  /\ last' = [op |-> "restart", cls |-> blk, verr |-> "-", n |-> n, r |-> node[n].round]
+  /\ UNCHANGED <<vs, blk, blk2, byz, hp>>
+  /\ last' = Lbl("restart", n, node[n].round, None)
 
 Next ==
-  \/ \E c \in Classes : ByzPropose(c)
-  \/ \E n \in N : \/ RecvByz(n)
+  \/ \E s \in Setups : Genesis(s)
+  \/ vs # NoSetup /\ \E b \in Blocks(vs) : ByzPropose(b)
+  \/ blk # NoBlk /\ \E b \in Seconds(vs, [c |-> blk.c, lcp |-> blk.lcp]) : ByzBuild2(b)
+  \/ \E kind \in {"pv", "pc"} : \E r \in Rounds : \E v \in {Nil} \cup ByzVals : ByzVote(kind, r, v)
+  \/ \E n \in N : \/ \E v \in ByzVals : RecvByz(n, v)
                   \/ TimeoutPropose(n)
                   \/ FetchBlock(n)
                   \/ Restart(n)
-                  \/ \E r \in Rounds : \/ RecvHonest(n, r)
+                  \/ \E r \in Rounds : \/ OwnProposal(n, r)
+                                       \/ RecvHonest(n, r)
+                                       \/ TimeoutHonest(n, r)
                                        \/ RecvPrevotes(n, r)
                                        \/ RecvPrecommits(n, r)
 
@@ -268,8 +425,8 @@ FairSpec == Spec /\ WF_vars(Next)
 \* a correct validator never prevotes or precommits a block that is not fully valid
 VotesOnlyFullyValid ==
   \A n \in N : \A r \in Rounds :
-    /\ node[n].pv[r] \in {"B", "G"} => FullyValid(node[n].pv[r])
-    /\ node[n].pc[r] \in {"B", "G"} => FullyValid(node[n].pc[r])
+    /\ node[n].pv[r] \in BlockVals => FullyValid(node[n].pv[r])
+    /\ node[n].pc[r] \in BlockVals => FullyValid(node[n].pc[r])
 
 \* no correct node persists a block it cannot apply
 PersistOnlyApplicable == \A n \in N : node[n].stored # None => ValidateBlock(node[n].stored)
@@ -278,13 +435,13 @@ PersistOnlyApplicable == \A n \in N : node[n].stored # None => ValidateBlock(nod
 NoWedge == \A n \in N : ~node[n].killed /\ node[n].step # "failed"
 
 \* every correct node ends the height with a block applied (under the synchronous schedule)
-ChainContinues == <>(\A n \in N : node[n].applied)
+ChainContinues == <>(vs # NoSetup /\ \A n \in N : node[n].applied)
 
 \* (AsCoded only) a restart does not help: once killed, always killed
-WedgeIsPermanent == [][\A n \in N : node[n].killed => node'[n].killed]_vars
+WedgeIsPermanent == [][\A n \in N : (vs # NoSetup /\ node[n].killed) => node'[n].killed]_vars
 
 (* ---- export -------------------------------------------------------------- *)
-Proj == [blk |-> blk, node |-> node]
-View == <<blk, node>>
+Proj == [setup |-> vs.id, blk |-> blk, blk2 |-> blk2, byz |-> byz, hp |-> hp, node |-> node]
+View == <<vs, blk, blk2, byz, hp, node>>
 Edge == PrintT(ToJson([from |-> Proj, act |-> last', to |-> Proj']))
 =============================================================================
